@@ -69,7 +69,7 @@ def norm_stream(ctx, n):
         canon, again = unhex(d["canon"]), unhex(d["again"])
         ctx.case("n" + u + "|" + p, canon.count("&") >= 1 or bool(p))
         if d["det"] != "1":
-            ctx.violation("normalising %r (parent %r) gave %s different canonical strings over 7 evaluations, e.g. %s" % (u, p, d["det"], canon), rep)
+            ctx.violation("normalising %r (parent %r) gave %s different canonical strings over 8 evaluations (one with a pre-parsed URL object), e.g. %s" % (u, p, d["det"], canon), rep)
             continue
         if again != canon:
             ctx.violation("not idempotent: %r -> %s, and normalising that gives %s" % (u, canon, again), rep)
